@@ -468,6 +468,11 @@ def minimise_and_write(prop, root, world, spec, v, workdir, budget):
             info["runs"] = nruns
         except Exception as e:
             info["minimise_error"] = repr(e)
+    if "property" not in vmin:
+        # violation reconstructed from a child process exit status (CRASH)
+        vmin = dict(v, **{k: x for k, x in vmin.items() if x is not None})
+        vmin["op_index"] = min(v.get("op_index") or 0, max(0, len(smin["ops"]) - 1))
+        vmin["detail"] = "process died (exit status %s) while replaying the minimised world" % vmin.get("signal")
     info["ops_after"] = len(smin["ops"])
     info["atoms_after"] = {k: s["n"] for k, s in smin["structures"].items()}
     path = write_replay(prop, root, world, smin, vmin)
